@@ -318,7 +318,11 @@ func c13Scenario(c *choice.Ctx, rep *report.R, minK, maxK int, rich bool, fullSe
 		case pause && len(rc) <= 1:
 			// the connection may have been closed for idleness at any point: missing responses and REFUSED/SERVFAIL are all fine
 		case len(rc) == 0:
-			fail("response-missing", fmt.Sprintf("no response for query id %#x (frame %d of %d)", id, i, k))
+			dbg := ""
+			if tcpImpl != nil {
+				dbg = fmt.Sprintf(" [conn closed=%v parked=%d frames=%d upstream=%d]", tcpImpl.IsClosed(), len(tcpImpl.Parked()), len(fs), len(u.Queries()))
+			}
+			fail("response-missing", fmt.Sprintf("no response for query id %#x (frame %d of %d)%s", id, i, k, dbg))
 		case len(rc) > 1:
 			fail("response-duplicated", fmt.Sprintf("%d responses for query id %#x", len(rc), id))
 		case stallWrites && i > accepted && (rc[0] == 0 || rc[0] == 2 || rc[0] == 5):
